@@ -805,4 +805,215 @@ def exTampered : Attr := [(asc ".encoding", asc "UTF-8"), (kKeySafe, renderKeySa
 def exPadTampered : Attr := [(asc ".encoding", asc "UTF-8"), (kKeySafe, renderKeySafe id toyDec [exPair]),
   (kData, (sealBlob toyEnc (exTag exDk exCfg) 16 exDk exIv exCfg).set 20 0)]
 
+/-! ## termination of the key-safe parser (C11) -/
+
+/-- the external functions never report the model's own out-of-fuel outcome -/
+def Crypto.NoNT (c : Crypto) : Prop :=
+  (∀ x, c.b64decode x ≠ .error .nonTermination) ∧ (∀ x, c.parseInt x ≠ .error .nonTermination)
+
+theorem partition_snd_length (sep : UInt8) (s : Bytes) : (partition sep s).2.length ≤ s.length := by
+  induction s with
+  | nil => simp [partition]
+  | cons c cs ih =>
+    simp only [partition]
+    split
+    · simp
+    · simp only [List.length_cons]; omega
+
+/-- every piece the `_split_list` character loop produces is made of characters of the input and the pending buffer -/
+theorem splitLoop_member_length : ∀ (cs buf : Bytes) (level : Int), ∀ m ∈ splitLoop cs buf level, m.length ≤ cs.length + buf.length := by
+  intro cs
+  induction cs with
+  | nil =>
+    intro buf level m hm
+    simp only [splitLoop] at hm
+    split at hm
+    · cases hm
+    · simp only [List.mem_singleton] at hm; subst hm; simp
+  | cons c cs ih =>
+    intro buf level m hm
+    simp only [splitLoop] at hm
+    split at hm
+    · have := ih _ _ m hm; simp only [List.length_cons] at this ⊢; omega
+    split at hm
+    · have := ih _ _ m hm; simp only [List.length_cons] at this ⊢; omega
+    split at hm
+    · simp only [List.mem_cons] at hm
+      rcases hm with rfl | hm
+      · simp
+      · have := ih _ _ m hm; simp only [List.length_cons, List.length_nil] at this ⊢; omega
+    · have := ih _ _ m hm; simp only [List.length_cons] at this ⊢; omega
+
+theorem takeWhile_length_le (p : UInt8 → Bool) (l : Bytes) : (l.takeWhile p).length ≤ l.length := by
+  induction l with
+  | nil => simp
+  | cons a t ih => simp only [List.takeWhile_cons]; split <;> simp <;> omega
+
+theorem listContents_length {v contents : Bytes} (h : listContents v = some contents) : contents.length < v.length := by
+  unfold listContents at h
+  split at h
+  · cases h
+  · rename_i c rest
+    split at h
+    · cases h
+    · simp only at h
+      split at h
+      · split at h
+        · cases h
+        · simp only [Option.some.injEq] at h
+          subst h
+          have : (rest.takeWhile (· ≠ 10)).length ≤ rest.length := takeWhile_length_le _ _
+          simp only [List.length_take, List.length_cons]
+          omega
+      · cases h
+
+/-- every member of a split list is strictly shorter than the list text -/
+theorem splitList_member_length {v : Bytes} {ms : List Bytes} (h : splitList v = .ok ms) : ∀ m ∈ ms, m.length < v.length := by
+  unfold splitList at h
+  split at h
+  · cases h
+  · rename_i contents hc
+    simp only [Except.ok.injEq] at h
+    subst h
+    intro m hm
+    have h1 := splitLoop_member_length contents [] 0 m hm
+    have h2 := listContents_length hc
+    simp only [List.length_nil] at h1
+    omega
+
+theorem mapM_error {α β : Type} (f : α → Except VErr β) : ∀ (l : List α) (e : VErr), l.mapM f = .error e → ∃ a ∈ l, f a = .error e := by
+  intro l
+  induction l with
+  | nil => intro e h; simp [List.mapM_nil, pure, Except.pure] at h
+  | cons a t ih =>
+    intro e h
+    rw [List.mapM_cons] at h
+    cases ha : f a with
+    | error e' =>
+      rw [ha] at h
+      simp only [bind, Except.bind, Except.error.injEq] at h
+      subst h
+      exact ⟨a, by simp, ha⟩
+    | ok b =>
+      rw [ha] at h
+      simp only [bind, Except.bind] at h
+      cases ht : t.mapM f with
+      | error e' =>
+        rw [ht] at h
+        simp only [Except.error.injEq] at h
+        subst h
+        obtain ⟨a', ha', hfa'⟩ := ih _ ht
+        exact ⟨a', by simp [ha'], hfa'⟩
+      | ok bs => rw [ht] at h; simp [pure, Except.pure] at h
+
+theorem splitList_noNT (v : Bytes) : splitList v ≠ .error .nonTermination := by
+  unfold splitList; split <;> (intro h; cases h)
+
+theorem parsePhrase_noNT (c : Crypto) (hc : c.NoNT) (r : Bytes) : parsePhrase c r ≠ .error .nonTermination := by
+  unfold parsePhrase
+  simp only []
+  split; · intro h; cases h
+  split; · intro h; cases h
+  split; · intro h; cases h
+  rename_i rr _
+  cases hp : c.parseInt rr with
+  | error e =>
+    intro h
+    simp only [bind, Except.bind, Except.error.injEq] at h
+    exact hc.2 rr (by rw [hp, h])
+  | ok rounds =>
+    simp only [bind, Except.bind]
+    split; · intro h; cases h
+    rename_i sl _
+    cases hb : c.b64decode sl with
+    | error e =>
+      intro h
+      simp only [Except.error.injEq] at h
+      exact hc.1 sl (by rw [hb, h])
+    | ok salt => intro h; cases h
+
+/-- **the recursive locator parser never runs out of fuel**: every nesting level consumes at least its identifier and the
+    opening parenthesis, so `length + 1` units of fuel cover any nesting the text can encode -/
+theorem parseLocator_terminates (c : Crypto) (hc : c.NoNT) : ∀ (fuel : Nat) (s : Bytes), s.length < fuel →
+    parseLocator c fuel s ≠ .error .nonTermination := by
+  intro fuel
+  induction fuel with
+  | zero => intro s h; omega
+  | succ fuel ih =>
+    intro s hs
+    have hrem := partition_snd_length sepLoc s
+    simp only [parseLocator]
+    split
+    · -- list
+      cases hsl : splitList (partition sepLoc s).2 with
+      | error e =>
+        intro h
+        simp only [bind, Except.bind, Except.error.injEq] at h
+        exact splitList_noNT _ (by rw [hsl, h])
+      | ok ms =>
+        have hlen := splitList_member_length hsl
+        simp only [bind, Except.bind]
+        cases hm : ms.mapM (parseLocator c fuel) with
+        | error e =>
+          intro h
+          simp only [Except.error.injEq] at h
+          subst h
+          obtain ⟨m, hmem, hfm⟩ := mapM_error _ _ _ hm
+          exact ih m (by have := hlen m hmem; omega) hfm
+        | ok ls => intro h; cases h
+    split
+    · -- pair
+      cases hsl : splitList (partition sepLoc s).2 with
+      | error e =>
+        intro h
+        simp only [bind, Except.bind, Except.error.injEq] at h
+        exact splitList_noNT _ (by rw [hsl, h])
+      | ok ms =>
+        have hlen := splitList_member_length hsl
+        simp only [bind, Except.bind]
+        cases ms with
+        | nil => intro h; cases h
+        | cons m0 rest =>
+          simp only []
+          cases hk : parseLocator c fuel m0 with
+          | error e =>
+            intro h
+            simp only [Except.error.injEq] at h
+            subst h
+            exact ih m0 (by have := hlen m0 (by simp); omega) hk
+          | ok k =>
+            simp only []
+            split
+            · rename_i m1 m2 _
+              cases hb : c.b64decode (pctDecode m2) with
+              | error e =>
+                intro h
+                simp only [Except.error.injEq] at h
+                exact hc.1 _ (by rw [hb, h])
+              | ok d => intro h; cases h
+            · intro h; cases h
+    split
+    · cases hp : parsePhrase c (partition sepLoc s).2 with
+      | error e =>
+        intro h
+        simp only [bind, Except.bind, Except.error.injEq] at h
+        exact parsePhrase_noNT c hc _ (by rw [hp, h])
+      | ok p => intro h; cases h
+    · intro h; cases h
+
+/-- `KeySafe.from_text` passes `length + 1`: enough for every text -/
+theorem fromText_terminates (c : Crypto) (hc : c.NoNT) (text : Bytes) : fromText c text ≠ .error .nonTermination := by
+  unfold fromText
+  split
+  · intro h; cases h
+  · have := parseLocator_terminates c hc ((partition sepSafe text).2.length + 1) (partition sepSafe text).2 (by omega)
+    cases hl : parseLocator c ((partition sepSafe text).2.length + 1) (partition sepSafe text).2 with
+    | error e =>
+      intro h
+      simp only [bind, Except.bind, Except.error.injEq] at h
+      exact this (by rw [hl, h])
+    | ok l =>
+      simp only [bind, Except.bind]
+      split <;> (intro h; cases h)
+
 end Hv.Vmx
